@@ -36,6 +36,14 @@ def base_history(rng, path, tier):
         elif id_ in live:
             ops.append({'op': 22, 'id': id_})
             del live[id_]
+    if rng.random() < 0.35:
+        # a last record larger than the growth quantum: the file grows by exactly its size, so the span ends flush with
+        # the end of the file (no FREE span and no tail behind the damaged span)
+        id_ = rng.choice(pool)
+        meta, vec = P(seed=seed + 1, n=rng.choice([4200, 5000, 6100, 9000])), P(data=random_vec_bytes(rng, q, dim))
+        ops.append({'op': 20, 'id': id_, 'vec': vec, 'meta': meta})
+        live[id_] = (meta.bytes(), vec.bytes())
+        versions.setdefault(id_, set()).add(live[id_])
     return ops, versions, live, {'dim': dim, 'q': q, 'metric': metric}
 
 
